@@ -164,6 +164,18 @@ impl Check for C17 {
     fn num_cases(&self, tier: Tier) -> u64 {
         tier.pick(30_000, 600_000)
     }
+    fn builtin_corpus(&self) -> Vec<Case> {
+        // element counts beyond 2^16 (see gen::wide_cfgs); measurements touching the far end
+        let mut v = vec![];
+        for (i, cfg) in wide_cfgs().into_iter().enumerate() {
+            for (s1, s2) in [(2u8, 7u8), (1, 3)] {
+                let m1 = meas_from(&cfg.inst, s1, 500 + i as u64);
+                let m2 = meas_from(&cfg.inst, s2, 600 + i as u64);
+                v.push(Case::Prio3 { cfg: cfg.clone(), ctx: Hex(b"wide".to_vec()), nonce_seed: 9 + i as u64, rand_seed: 90 + i as u64, m1, m2 });
+            }
+        }
+        v
+    }
     fn run(&self, case: &Case) -> Outcome {
         let mut obs = Obs::new();
         match case {
